@@ -16,6 +16,15 @@ fn once(file: &str, args: &[String]) -> J {
     }
 }
 
+#[cfg(rash_verif)]
+fn trace() -> Vec<String> {
+    rash_core::docopt::VERIF_EXPANDED_USAGES.with(|t| t.borrow().clone())
+}
+#[cfg(not(rash_verif))]
+fn trace() -> Vec<String> {
+    Vec::new()
+}
+
 pub fn run(case: &J) -> J {
     let file = case["file"].as_str().unwrap().to_owned();
     let args: Vec<String> = case["args"].as_array().unwrap().iter().map(|x| x.as_str().unwrap().to_owned()).collect();
@@ -26,6 +35,10 @@ pub fn run(case: &J) -> J {
         if !outs.contains(&o) {
             outs.push(o);
         }
+    }
+    if case["trace"].as_bool().unwrap_or(false) {
+        // the expanded usages in the order the last parse tried them (hook, --cfg rash_verif)
+        return json!({"outs": outs, "usages": trace()});
     }
     json!({"outs": outs})
 }
